@@ -20,7 +20,7 @@ def run(ctx):
     ctx.run_shards(b, ["--mode", "launch"] + ch, label="launch matrix")
     ctx.run_shards(b, ["--mode", "args", "--len", "4" if q else "6"] + ch, label="argument vectors")
     c = ctx.counters
-    ev = sum(c.get(k, 0) for k in ("argument_vectors", "command_lines", "launches", "io_runs", "exit_code_runs"))
+    ev = sum(c.get(k, 0) for k in ("argument_vectors", "command_lines", "launches", "io_runs", "exit_code_runs", "two_process_runs"))
     cov = {"evaluations": int(ev), "distinct_nontrivial": int(c.get("distinct_nontrivial", 0)),
            "rule": "Arguments: every argument vector of <= %d strings over {-a -ab -abo -oX -o -abc - -- --aa --out=X --out --opt --opt=X --zz --aa=X X '' -ba --out= --o=X --=X} "
                    "(each string and the vector in exactly sized heap blocks under ASan) against glibc getopt_long in return-in-order mode (\"-:abo:\", exact long names) "
